@@ -1293,13 +1293,15 @@ static ares_status_t set_servers_csv(ares_channel_t *channel, const char *_csv)
     return status;
   }
 
+  /* Link-local interface names are resolved through channel->sock_funcs */
+  ares_channel_lock(channel);
   status = ares_sconfig_append_fromstr(channel, &slist, _csv, ARES_FALSE);
   if (status != ARES_SUCCESS) {
+    ares_channel_unlock(channel);
     ares_llist_destroy(slist);
     return status;
   }
 
-  ares_channel_lock(channel);
   status = ares_servers_update(channel, slist, ARES_TRUE);
   ares_channel_unlock(channel);
 
